@@ -21,6 +21,7 @@ import (
 
 	"github.com/tochemey/goakt/v4/internal/internalpb"
 	inet "github.com/tochemey/goakt/v4/internal/net"
+	"github.com/tochemey/goakt/v4/internal/remoteclient"
 	"github.com/tochemey/goakt/v4/internal/verif/vsched"
 	"github.com/tochemey/goakt/v4/remote"
 )
@@ -259,10 +260,13 @@ func (r *c29Responder) shutdown() {
 
 type c29Scenario struct {
 	name    string
-	mode    string // "tell" (coalesced RemoteTell) | "ask" (RemoteAsk, frame level metadata)
+	mode    string // "tell" (coalesced RemoteTell) | "ask" (RemoteAsk, frame level metadata) | "tellsync" (RemoteTell of a client without coalescing, frame level metadata)
 	callers int
 	per     int
 	conns   int
+	// perCaller: one header choice per caller; its k-th message uses header map (choice+k) mod 3
+	// (keeps the quick tier small; the thorough tier chooses per message)
+	perCaller bool
 }
 
 type c29Sent struct {
@@ -289,7 +293,12 @@ func c29Run(t *testing.T, sc c29Scenario, c *vsched.Chooser) (out vsched.Outcome
 		to := pid.getAddress()
 		from := sys.NoSender().getAddress()
 		rsp := &c29Responder{sys: sys, ser: inet.NewProtoSerializer()}
-		nc := sys.remoting.NetClient(to.Host(), to.Port())
+		sender := sys.remoting
+		if sc.mode == "tellsync" {
+			// a remoting client as an application would build it without send coalescing
+			sender = remoteclient.NewClient(remoteclient.WithClientContextPropagator(prop))
+		}
+		nc := sender.NetClient(to.Host(), to.Port())
 		for i := 0; i < sc.conns; i++ {
 			nc.Put(rsp.addConn())
 		}
@@ -311,9 +320,18 @@ func c29Run(t *testing.T, sc c29Scenario, c *vsched.Chooser) (out vsched.Outcome
 		// header map of every message: an enumerated choice
 		sent := make([][]*c29Sent, sc.callers)
 		for j := range sent {
+			base := 0
 			for k := 0; k < sc.per; k++ {
-				h := c.Choose("headers", len(c29Headers), nil, func(i int) string { return fmt.Sprintf("c%d-%d headers %s", j, k, c29Dump(c29Headers[i])) })
-				sent[j] = append(sent[j], &c29Sent{id: fmt.Sprintf("%s-c%d-%d", sc.mode, j, k), hdr: h})
+				h := (base + k) % len(c29Headers)
+				if k == 0 || !sc.perCaller {
+					h = c.Choose("headers", len(c29Headers), nil, func(i int) string { return fmt.Sprintf("c%d-%d headers %s", j, k, c29Dump(c29Headers[i])) })
+					base = h
+				}
+				id := fmt.Sprintf("%s-c%d-%d", sc.mode, j, k)
+				if sc.mode == "ask" {
+					id = fmt.Sprintf("ask-c%d-%d", j, k)
+				}
+				sent[j] = append(sent[j], &c29Sent{id: id, hdr: h})
 			}
 		}
 		next := make([]int, sc.callers)
@@ -340,10 +358,10 @@ func c29Run(t *testing.T, sc c29Scenario, c *vsched.Chooser) (out vsched.Outcome
 							defer cwg.Done()
 							var err error
 							var rep any
-							if sc.mode == "tell" {
-								err = sys.remoting.RemoteTell(withHdr(s.hdr), from, to, wrapperspb.String(s.id))
+							if sc.mode == "ask" {
+								rep, err = sender.RemoteAsk(withHdr(s.hdr), from, to, wrapperspb.String(s.id), time.Minute)
 							} else {
-								rep, err = sys.remoting.RemoteAsk(withHdr(s.hdr), from, to, wrapperspb.String(s.id), time.Minute)
+								err = sender.RemoteTell(withHdr(s.hdr), from, to, wrapperspb.String(s.id))
 							}
 							mu.Lock()
 							s.err, s.ret = err, true
@@ -415,6 +433,9 @@ func c29Run(t *testing.T, sc c29Scenario, c *vsched.Chooser) (out vsched.Outcome
 		out.Violations = v
 		out.Obs = obs.String()
 		sys.remoting.Close() // Stop closes it only when remoting is enabled; the coalescer's writer must exit
+		if sender != sys.remoting {
+			sender.Close()
+		}
 		rsp.shutdown()
 		sys.remotingEnabled.Store(false)
 		if err := vfStopSystem(sys); err != nil {
@@ -433,12 +454,15 @@ func TestVerifC29(t *testing.T) {
 	r.Assumption("events are atomic (system settled after each); net.Pipe instead of TCP; the ProtoServer read loop is mirrored by the harness responder (same serializer calls and format detection order), everything else is the real sender and receiver code")
 	scs := []c29Scenario{
 		{name: "tell/3callers-x1", mode: "tell", callers: 3, per: 1, conns: 1},
-		{name: "tell/2callers-x2", mode: "tell", callers: 2, per: 2, conns: 1},
+		{name: "tell/2callers-x2/header-per-caller", mode: "tell", callers: 2, per: 2, conns: 1, perCaller: true},
 		{name: "ask/2callers-x1/2conns", mode: "ask", callers: 2, per: 1, conns: 2},
+		{name: "tellsync/2callers-x1/2conns", mode: "tellsync", callers: 2, per: 1, conns: 2},
 	}
 	if r.Thorough() {
-		scs = append(scs, c29Scenario{name: "ask/3callers-x1/3conns", mode: "ask", callers: 3, per: 1, conns: 3},
-			c29Scenario{name: "tell/3callers-x2", mode: "tell", callers: 3, per: 2, conns: 1})
+		scs = append(scs, c29Scenario{name: "tell/2callers-x2", mode: "tell", callers: 2, per: 2, conns: 1},
+			c29Scenario{name: "ask/3callers-x1/3conns", mode: "ask", callers: 3, per: 1, conns: 3},
+			c29Scenario{name: "tellsync/3callers-x1/3conns", mode: "tellsync", callers: 3, per: 1, conns: 3},
+			c29Scenario{name: "tell/3callers-x2/header-per-caller", mode: "tell", callers: 3, per: 2, conns: 1, perCaller: true})
 	}
 	var all []vsched.Scenario
 	for _, sc := range scs {
